@@ -22,7 +22,7 @@ import (
 func wClosedHooks(c *Ctx, seen *int) *bounds.Hooks {
 	var mu sync.Mutex
 	type info struct {
-		wOrs   []*ssa.BinOp // OR results that put W bits (mask 0x30) into a header byte
+		wOrs   []*ssa.BinOp               // OR results that put W bits (mask 0x30) into a header byte
 		loops  map[*ssa.BasicBlock]string // block -> the loop heads around it
 		isLast *ssa.Parameter
 		mtu    *ssa.Parameter
